@@ -252,6 +252,116 @@ def long_quic_outage():
         lpx.stop(); qh.stop(); e2.stop()
     except Exception as e:
         long_result['machinery'] = repr(e)
+# ---- also in parallel: an origin reached by NAME through the direct connector goes away and comes back on another
+#      address (its name server is updated, TTL 1 s): new requests for the name are served again within K attempts.
+#      Own proxy, own name server (`dns.servers`), origin on 127.0.0.1 first, on 127.0.0.2 afterwards
+moved_result = {}
+class NameServer(threading.Thread):
+    def __init__(self, name, ip):
+        super().__init__(daemon=True)
+        self.sock = socket.socket(socket.AF_INET, socket.SOCK_DGRAM); self.sock.bind(('127.0.0.1', 0))
+        self.port = self.sock.getsockname()[1]
+        self.name, self.ip, self.queries = name, ip, 0
+    def run(self):
+        while True:
+            try:
+                qd, peer = self.sock.recvfrom(4096)
+            except OSError:
+                return
+            if len(qd) < 12:
+                continue
+            i, labels = 12, []
+            while i < len(qd) and qd[i] != 0:
+                n = qd[i]; labels.append(qd[i + 1:i + 1 + n].decode('ascii', 'replace')); i += 1 + n
+            qend = i + 5
+            if qend > len(qd):
+                continue
+            qtype, _ = struct.unpack('!HH', qd[i + 1:qend])
+            ans = b''
+            if '.'.join(labels).lower() == self.name and qtype == 1:
+                self.queries += 1
+                ans = b'\xc0\x0c' + struct.pack('!HHIH', 1, 1, 1, 4) + socket.inet_aton(self.ip)
+            try:
+                self.sock.sendto(qd[:2] + struct.pack('!HHHHH', 0x8580, 1, 1 if ans else 0, 0, 0) + qd[12:qend] + ans, peer)
+            except OSError:
+                pass
+def moved_origin():
+    try:
+        ns = NameServer('origin.test', '127.0.0.1'); ns.start()
+        oport = free_port()
+        def serve(ip):
+            l = socket.socket(); l.setsockopt(socket.SOL_SOCKET, socket.SO_REUSEADDR, 1); l.bind((ip, oport)); l.listen(16)
+            conns = []
+            def loop():
+                while True:
+                    try:
+                        c, _ = l.accept()
+                    except OSError:
+                        return
+                    conns.append(c)
+                    threading.Thread(target=_echo, args=(c,), daemon=True).start()
+            def _echo(c):
+                try:
+                    while True:
+                        d = c.recv(4096)
+                        if not d:
+                            break
+                        c.sendall(d)
+                except OSError:
+                    pass
+            threading.Thread(target=loop, daemon=True).start()
+            return l, conns
+        mhp, map_ = free_port(), free_port()
+        mpx = Proxy({'listeners': [{'name': 'http', 'bind': f'127.0.0.1:{mhp}'}], 'connectors': [{'name': 'direct', 'dns': {'servers': f'127.0.0.1:{ns.port}', 'family': 'V4Only'}}],
+                     'rules': [{'target': 'direct'}], 'metrics': {'bind': f'127.0.0.1:{map_}', 'ui': None}}, 'c19m')
+        mpx.api_port = map_
+        if not mpx.start([mhp, map_]):
+            moved_result['machinery'] = 'proxy did not start: ' + mpx.log()[-200:]
+            return
+        def mprobe():
+            try:
+                s_, code, head, rest = http_connect(mhp, f'origin.test:{oport}', timeout=DEADLINE)
+            except OSError:
+                return False
+            try:
+                if code != 200:
+                    return False
+                s_.sendall(b'probe!')
+                return recv_exact(s_, 6, DEADLINE) == b'probe!'
+            except OSError:
+                return False
+            finally:
+                s_.close()
+        l1, c1 = serve('127.0.0.1')
+        if not any(mprobe() for _ in range(3)):
+            moved_result['machinery'] = 'the name is not served before the move: ' + mpx.log()[-200:]
+            return
+        for _ in range(2):
+            mprobe()
+        try: l1.shutdown(socket.SHUT_RDWR)      # (wakes the thread blocked in accept(): otherwise the port stays open)
+        except OSError: pass
+        l1.close()
+        for c in c1:
+            try: c.close()
+            except OSError: pass
+        down = mprobe()
+        l2, c2 = serve('127.0.0.2')
+        ns.ip = '127.0.0.2'
+        q0 = ns.queries
+        time.sleep(1.5)          # past the record's TTL
+        rec = None
+        for attempt in range(1, K + 1):
+            if mprobe():
+                rec = attempt
+                break
+            time.sleep(1.0)
+        moved_result.update({'served_while_down': down, 'recovered_at_attempt': rec, 'name_server_asked_again': ns.queries - q0, 'alive': mpx.alive()})
+        mpx.stop(); l2.close(); ns.sock.close()
+    except Exception as e:
+        moved_result['machinery'] = repr(e)
+moved_thread = threading.Thread(target=moved_origin, daemon=True)
+moved_thread.start()
+
 def blackhole(port):
     """a listener whose accept queue is full: further SYNs are dropped"""
     l = socket.socket()
@@ -771,6 +881,14 @@ if not udp_result.get('alive'):
 samples.append({'udp_origin_outage': udp_result})
 long_thread.join(240)
 evals += 1
+moved_thread.join(90)
+evals += 1
+if moved_thread.is_alive() or 'machinery' in moved_result:
+    machinery(f'moved origin scenario: {moved_result.get("machinery", "did not finish")}')
+distinct.add(('moved-origin', moved_result.get('recovered_at_attempt') is not None))
+if moved_result.get('recovered_at_attempt') is None:
+    chk.violation('recovery.resume', 'no-service-after-origin-returned-on-another-address:direct', f'direct connector, origin named origin.test: it went away and came back on another address (name server updated, TTL 1 s): {K} attempts, still no tunnel (the name server was asked {moved_result.get("name_server_asked_again")} times after the change)', {'observed': {k: str(v) for k, v in moved_result.items()}})
+samples.append({'moved_origin': moved_result})
 if long_thread.is_alive() or 'machinery' in long_result:
     machinery(f'long QUIC outage scenario: {long_result.get("machinery", "did not finish")}')
 distinct.add(('long-quic-outage', long_result.get('recovered') is not None))
@@ -791,6 +909,6 @@ for o in (echo, qecho, cecho):
 if evals < 12 or len(distinct) < 5:
     machinery(f'vacuous: evals={evals} distinct={len(distinct)}')
 cov = {'evaluations': evals, 'distinct_nontrivial': len(distinct), 'transitions': evals, 'traces_validated_against_impl': evals,
-       'rule': f'real binary: connector kind {KINDS} x outage phase {PHASES} x fault {FAULTS} (quick: handshake phase only with restart; during the SYN black-hole with 48 requests pending the rule list is posted back through the API: answered within 4 s; thorough adds all pairs of outages); recovery = a probe succeeds within K={K} attempts of {DEADLINE} s after the upstream is reachable again; control tunnel checked during and after every outage; a QUIC upstream away for 34 s (thorough 110 s) with one request per second arriving meanwhile (the connection attempt backs off exponentially); plus, for http and socks5 upstreams, a listener that silently drops connection attempts with 48 requests pending while the control tunnel and new direct requests are timed; plus, for quic / http / socks hops (real second redproxy), one origin behind the healthy hop silently dropping connection attempts for 15 s with 3 requests pending, while 3 established tunnels through the same hop echo every 0.5 s and new ones are opened; plus three outages per connector (direct, http, socks5, lb) with 70 requests failing during each and a recovery probe after each; plus a UDP origin behind the reverse listener that goes away while in use and returns on its port: the same client socket, another known one and a fresh one are served again within K attempts',
+       'rule': f'real binary: [wave 10: an origin reached by name through the direct connector that comes back on another address (own name server, TTL 1 s) is served again within K attempts] connector kind {KINDS} x outage phase {PHASES} x fault {FAULTS} (quick: handshake phase only with restart; during the SYN black-hole with 48 requests pending the rule list is posted back through the API: answered within 4 s; thorough adds all pairs of outages); recovery = a probe succeeds within K={K} attempts of {DEADLINE} s after the upstream is reachable again; control tunnel checked during and after every outage; a QUIC upstream away for 34 s (thorough 110 s) with one request per second arriving meanwhile (the connection attempt backs off exponentially); plus, for http and socks5 upstreams, a listener that silently drops connection attempts with 48 requests pending while the control tunnel and new direct requests are timed; plus, for quic / http / socks hops (real second redproxy), one origin behind the healthy hop silently dropping connection attempts for 15 s with 3 requests pending, while 3 established tunnels through the same hop echo every 0.5 s and new ones are opened; plus three outages per connector (direct, http, socks5, lb) with 70 requests failing during each and a recovery probe after each; plus a UDP origin behind the reverse listener that goes away while in use and returns on its port: the same client socket, another known one and a fresh one are served again within K attempts',
        'schedules': evals, 'K': K, 'deadline_s': DEADLINE, 'schedule_control': 'kernel', 'samples': samples}
 sys.exit(chk.finish('fault_enumeration', cov, ['silent packet loss on the QUIC path with later recovery is out of reach (needs the 3600 s idle timeout)', 'upstreams are Python servers / a second redproxy process killed with SIGKILL'], merge=False))
